@@ -55,10 +55,39 @@ def enumerate_and_replay(menu: list[str], max_lines: int, mode: str = "collect",
     return n, mism, res, behs
 
 
+def grow_and_replay(menu: list[str], starts: list[tuple[list[int], int]], tag: str = "grow", invariants: list[str] | None = None,
+                    timeout: int = 3000, dialects=("en", "fr"), no_free_text: bool = False):
+    """MC_Grow: every ACCEPTED document over the menu: for each (prefix, n) in starts, the prefix extended by up to n lines; replayed."""
+    with Scratch(tag) as sc:
+        write_dialects(sc, list(dialects))
+        sc.write_json("menu.json", [cp(m) for m in menu])
+        sdef = "{" + ", ".join("[p |-> <<%s>>, n |-> %d]" % (", ".join(map(str, p)), n) for p, n in starts) + "}"
+        src = open(sc.path("MC_Grow.tla")).read().replace("=" * 77, "StartsDef == %s\n" % sdef + "=" * 77)
+        sc.write("MC_Grow.tla", src)
+        cfg = "SPECIFICATION Spec\nCONSTANT Starts <- StartsDef\nCONSTANT NoFreeText = %s\nCONSTRAINT Emit\nCHECK_DEADLOCK FALSE\n" % ("TRUE" if no_free_text else "FALSE")
+        for inv in invariants or []:
+            cfg += f"INVARIANT {inv}\n"
+        sc.write("MC_Grow_run.cfg", cfg)
+        res = run_tlc(sc, "MC_Grow", cfg="MC_Grow_run.cfg", timeout=timeout, extra=["-continue"] if invariants else None)
+    if "Parsing or semantic analysis failed" in res.out or not res.finished or any("Invariant" not in e and "violated" not in e for e in res.errors):
+        raise MachineryError("MC_Grow did not complete:\n" + "\n".join(res.out.splitlines()[-40:]))
+    behs = res.tuples("BEH")
+    chunks = [(menu, "collect", behs[i::CORES]) for i in range(CORES)]
+    n, mism = 0, []
+    with ProcessPoolExecutor(CORES) as ex:
+        for k, out in ex.map(_replay_chunk, chunks):
+            n += k
+            mism += out
+    return n, mism, res, behs
+
+
 if __name__ == "__main__":
     import sys, time, menus
     t0 = time.time()
-    n, mism, res, behs = enumerate_and_replay(menus.BASE, int(sys.argv[1]) if len(sys.argv) > 1 else 3)
+    if len(sys.argv) > 2:
+        n, mism, res, behs = grow_and_replay(getattr(menus, sys.argv[2]), [([], int(sys.argv[1]))], invariants=["Inv_C06", "Inv_C07", "Inv_C08", "Inv_C10", "Inv_C11"], no_free_text=True)
+    else:
+        n, mism, res, behs = enumerate_and_replay(menus.BASE, int(sys.argv[1]) if len(sys.argv) > 1 else 3)
     print("behaviours", n, "mismatches", len(mism), "tlc", round(res.wall, 1), res.generated, res.distinct, "total", round(time.time() - t0, 1))
     for m in mism[:5]:
         print(json.dumps(m)[:800])
